@@ -239,6 +239,8 @@ pub fn explore(scen: &Scenario, hooks: &[&dyn StateHook], caps: &Caps) -> Result
     let mut frontier: Vec<usize> = vec![0];
     let mut depth = 0usize;
     let mut cap: Option<String> = None;
+    const MAX_PROBE_SUCCESSORS: usize = 128;
+    let mut probe_successors = 0usize;
     while !frontier.is_empty() {
         if t0.elapsed().as_secs_f64() > caps.wall_s {
             cap = Some(format!("wall-clock cap {} s hit at depth {depth}", caps.wall_s));
@@ -292,6 +294,16 @@ pub fn explore(scen: &Scenario, hooks: &[&dyn StateHook], caps: &Caps) -> Result
                 e.count += 1;
             }
             for (ai, st) in r.succ {
+                // successors of *violating probes* are explored so that a defect shows its consequences, but only a
+                // bounded number of them per scenario: on a broken tree a probe that violates from every state (a
+                // one-unit step on a large order, say) would otherwise unroll until a cap stops it
+                if ai as usize >= scen.l.len() {
+                    if probe_successors >= MAX_PROBE_SUCCESSORS {
+                        cap.get_or_insert_with(|| format!("successors of violating probes limited to {MAX_PROBE_SUCCESSORS} (violations were found)"));
+                        continue;
+                    }
+                    probe_successors += 1;
+                }
                 if !seen.contains(&st, &ex.states) {
                     let id = ex.states.len() as u32;
                     seen.insert(&st, id);
